@@ -6,6 +6,11 @@ use sc62015_core::memory::{MemoryImage, IMEM_ISR_OFFSET};
 pub fn run(w: &[&str]) -> String {
     let mut kb = KeyboardMatrix::new();
     let mut mem = MemoryImage::new();
+    // every other case starts from a matrix that was reset() once (what LlamaContractBus::new does): a reset of a freshly
+    // constructed matrix must not change anything that follows
+    if (w.len() + num(w[0]) as usize + num(w[1]) as usize) % 2 == 0 {
+        kb.reset(&mut mem);
+    }
     let ah = w[4] != "0";
     let rep = w[5] != "0";
     let irq = w[6] != "0";
